@@ -74,6 +74,28 @@ def range_rule(prog: Program, rep, RID: str, cname: str, mname: str):
         raise AnalysisError(f"{key}: k-loop iterator is not range(lo, hi): {norm(it)}")
     defs = local_single_defs(f.node)
     hi = substitute_locals(it.args[1], defs)
+    # a bound kept in an attribute: follow it to its (single) definition in the class; there the *caller's* graph parameter is
+    # not the model graph self.G (node-weighted input: the expanded graph has more edges than the caller's)
+    cls_ = prog.cls(cname)
+    for n in list(ast.walk(hi)):
+        d = dotted(n) if isinstance(n, ast.Attribute) else None
+        if d and d.startswith("self._") and d.count(".") == 1:
+            stores = [(m, st) for m in cls_.methods.values() for st in stores_to_self_attr(m.node, d[5:]) if isinstance(st, ast.Assign)]
+            if len(stores) == 1:
+                m, st = stores[0]
+                params = {a.arg for a in m.node.args.args[1:]}
+                used_params = {x.id for x in ast.walk(st.value) if isinstance(x, ast.Name) and x.id in params}
+                graph_params = {p_ for p_ in used_params if re.search(r"%s\.number_of_(edges|nodes)\(\)" % re.escape(p_), norm(st.value))}
+                if graph_params and m.name != mname:
+                    rep.violation(RID, f"{key}:upper-bound", f"the k-loop's upper bound `{norm(it.args[1])}` is `{norm(st.value)}` computed in {cname}.{m.name} from the caller's "
+                                  f"graph `{sorted(graph_params)[0]}`, not from the model graph self.G: for node-weighted input (self.G is the expanded graph) "
+                                  "the search stops below the optimum", m.loc(st))
+                    return
+                if not used_params:
+                    class _S(ast.NodeTransformer):
+                        def visit_Attribute(self, node):
+                            return st.value if dotted(node) == d else self.generic_visit(node)
+                    hi = _S().visit(hi)
     canonical = atoms[-1]
     need = Poly.atom(canonical) + Poly.const(extra + 1)          # exclusive bound must be >= K + 1
     r = dominates(hi, need, atoms)
